@@ -40,6 +40,7 @@ type SrvPeer struct {
 	outstanding map[uint16]int
 	SharedTags  map[uint16]bool // tags deliberately shared (Tag interface)
 	NoDupCheck  bool
+	NoTagRules  bool // tag discipline is C09's business; after a connection failure the client's last writes are not judged
 	MaxOutst    int
 	TagReuse    int
 	seenTags    map[uint16]bool
@@ -105,6 +106,10 @@ func head(b []byte, n int) []byte {
 }
 
 func (p *SrvPeer) noteTag(m *Msg) {
+	if p.NoTagRules {
+		p.outstanding[m.Tag]++
+		return
+	}
 	if m.Type == Tversion {
 		if m.Tag != NOTAG {
 			p.x.Violate("tag-version", "Tversion sent with tag %d, not NOTAG", m.Tag)
